@@ -1077,6 +1077,12 @@ func (repo *Repository) Save(ctx context.Context) error {
 	repo.Lock()
 	defer repo.Unlock()
 
+	// Consolidate longest branch with oldest branch so the main chain is in one branch. The main
+	// header files must be written from the main chain and not just from the tip of a fork of it.
+	if err := repo.consolidate(ctx); err != nil {
+		return errors.Wrap(err, "consolidate")
+	}
+
 	if err := repo.saveMainBranch(ctx); err != nil {
 		return errors.Wrap(err, "main branch")
 	}
